@@ -512,12 +512,87 @@ def field_sessions_stream(ctx, res):
                 res.violate("C08:field:other-key-file-touched", "the default key file was created / changed although every configuration names its own key file", case)
 
 
+def copies_keep_keys_stream(ctx, res):
+    """a deep copy of a configuration that was given a key file (a root built with key_filename=, a config type that names one, as a
+    field and as a list item) encrypts and decrypts with the key files of the original: what the copy stores opens with those key
+    files, the copy loads the original's document and the original the copy's, and the default key file is not touched"""
+    import cincoconfig as cc
+    from cincoconfig.encryption import KeyFile, SecureValue
+    tmp = ctx.tmpdir()
+    home = os.environ.get("HOME", "")
+    n = [0]
+
+    def newkey():
+        n[0] += 1
+        p_ = os.path.join(tmp, "ck%d.key" % n[0])
+        with open(p_, "wb") as fp:
+            fp.write(os.urandom(32))
+        return p_
+
+    def opens(keypath, stored):
+        try:
+            with KeyFile(keypath) as kf:
+                return kf.decrypt(SecureValue(stored["method"], base64.b64decode(stored["ciphertext"])))
+        except Exception as e:  # noqa
+            return "raised %s" % type(e).__name__
+    for method in ("aes", "xor"):
+        kroot, kvault = newkey(), newkey()
+        acct = cc.Schema()
+        acct.user = cc.StringField(default="u")
+        acct.password = cc.SecureField(method=method)
+        Acct = cc.make_type(acct, "CkAcct%d" % n[0], key_filename=kvault)
+        s = cc.Schema()
+        s.api_token = cc.SecureField(method=method)
+        s.primary = Acct
+        s.accounts = cc.ListField(Acct, default=lambda: [])
+        s.sub.token = cc.SecureField(method=method)
+        orig = s(key_filename=kroot)
+        orig.api_token = "root-token"
+        orig.primary = Acct(user="p", password="primary-pw")
+        orig.accounts = [Acct(user="a", password="pw-a"), Acct(user="b", password="pw-b")]
+        orig.sub.token = "sub-token"
+        default_key = os.path.join(home, ".cincokey")
+        stamp = open(default_key, "rb").read() if os.path.exists(default_key) else None
+        for inside in (False, True):
+            case = {"stream": "copies-keep-keys", "method": method, "copied_inside_an_open_key_context": inside}
+            res.case(stable(case), kind="copies-keep-keys")
+            try:
+                if inside:
+                    with orig._keyfile:
+                        dup = copy.deepcopy(orig)
+                else:
+                    dup = copy.deepcopy(orig)
+                tree = dup.to_tree()
+                wrong = []
+                for label, st, kp, plain in (("api_token", tree["api_token"], kroot, b"root-token"), ("sub.token", tree["sub"]["token"], kroot, b"sub-token"),
+                                             ("primary.password", tree["primary"]["password"], kvault, b"primary-pw"), ("accounts[1].password", tree["accounts"][1]["password"], kvault, b"pw-b")):
+                    if opens(kp, st) != plain:
+                        wrong.append(label)
+                if wrong:
+                    res.violate("C08:field:not-under-own-key", "a value stored by a deep copy does not decrypt with the key file of the configuration it was copied from", dict(case, fields=wrong))
+                    continue
+                fresh = s(key_filename=kroot)
+                fresh.loads(dup.dumps(format="json"), format="json")
+                dup2 = copy.deepcopy(orig)
+                dup2.loads(orig.dumps(format="json"), format="json")
+                got = [fresh.api_token, fresh.primary.password, [a.password for a in fresh.accounts], dup2.api_token, dup2.accounts[0].password]
+                if got != ["root-token", "primary-pw", ["pw-a", "pw-b"], "root-token", "pw-a"]:
+                    res.violate("C08:field:not-under-own-key", "documents do not travel between a configuration and its deep copy", dict(case, got=repr(got)[:160]))
+            except Exception as e:  # noqa
+                res.violate("C08:field:not-under-own-key", "saving / loading through a deep copy raised %s" % type(e).__name__, dict(case, error=str(e)[:120]))
+            now = open(default_key, "rb").read() if os.path.exists(default_key) else None
+            if now != stamp:
+                res.violate("C08:field:other-key-file-touched", "the default key file was created / changed although every configuration involved names its own key file", case)
+                stamp = now
+
+
 def run(ctx):
     res = Result()
     guard(res, "C08", stream_cipher, ctx, res, ctx.n(4, 40))
     guard(res, "C08", stream_b64, ctx, res, ctx.n(1500, 60000))
     guard(res, "C08", stream_stored, ctx, res, ctx.n(20, 400))
     guard(res, "C08", field_sessions_stream, ctx, res)
+    guard(res, "C08", copies_keep_keys_stream, ctx, res)
     return res
 
 
